@@ -19,7 +19,9 @@ Inductive cty := CNat | CString | COption (c : cty) | CPair (a b : cty).
 Inductive ty :=
 | TNat | TString | TAddress
 | TTicket (c : cty)
-| TPair (a b : ty) | TOption (a : ty) | TList (a : ty).
+| TPair (a b : ty) | TOption (a : ty) | TList (a : ty)
+| TBool
+| TMap (big : bool) (v : ty).      (* map nat v / big_map nat v: keys are nat in this model *)
 
 Inductive cval := CN (z : Z) | CS (s : bytes) | CNone (t : cty) | CSome (c : cval) | CPairV (a b : cval).
 
@@ -28,7 +30,9 @@ Inductive val :=
 | VTicket (ticketer : bytes) (content : cval) (amount : Z)
 | VPair (a b : val)
 | VSome (v : val) | VNone (t : ty)
-| VList (t : ty) (l : list val).
+| VList (t : ty) (l : list val)
+| VBool (b : bool)
+| VMap (big : bool) (vt : ty) (m : list (Z * val)).
 
 Inductive instr :=
 | TICKET | READ_TICKET | SPLIT_TICKET | JOIN_TICKETS
@@ -36,6 +40,7 @@ Inductive instr :=
 | PAIR | UNPAIR | CAR | CDR
 | SOME | NONE (t : ty) | IF_NONE (bt bf : list instr)
 | NIL (t : ty) | CONS | IF_CONS (bt bf : list instr) | ITER (body : list instr) | MAP (body : list instr)
+| EMPTY_MAP (big : bool) (vt : ty) | UPDATE | GET_AND_UPDATE | MEM | GET
 | PUSH_NAT (z : Z) | PUSH_STR (s : bytes)
 | SELF_IS (a : bytes).       (* harness pseudo-instruction: context.address := a *)
 
@@ -54,6 +59,8 @@ Fixpoint ty_eqb (a b : ty) : bool :=
   | TTicket x, TTicket y => cty_eqb x y
   | TPair a1 a2, TPair b1 b2 => ty_eqb a1 b1 && ty_eqb a2 b2
   | TOption x, TOption y | TList x, TList y => ty_eqb x y
+  | TBool, TBool => true
+  | TMap b1 x, TMap b2 y => Bool.eqb b1 b2 && ty_eqb x y
   | _, _ => false
   end.
 
@@ -84,6 +91,15 @@ Fixpoint val_eqb (a b : val) : bool :=
          | x :: r1, y :: r2 => val_eqb x y && go r1 r2
          | _, _ => false
          end) l1 l2
+  | VBool x, VBool y => Bool.eqb x y
+  | VMap b1 t1 m1, VMap b2 t2 m2 =>
+      Bool.eqb b1 b2 && ty_eqb t1 t2 &&
+      (fix go (m1 m2 : list (Z * val)) : bool :=
+         match m1, m2 with
+         | [], [] => true
+         | (k1, x) :: r1, (k2, y) :: r2 => (k1 =? k2) && val_eqb x y && go r1 r2
+         | _, _ => false
+         end) m1 m2
   | _, _ => false
   end.
 
@@ -124,6 +140,8 @@ Fixpoint type_of (v : val) : ty :=
   | VSome x => TOption (type_of x)
   | VNone t => TOption t
   | VList t _ => TList t
+  | VBool _ => TBool
+  | VMap big vt _ => TMap big vt
   end.
 
 (* MichelsonType.is_duplicable: false for ticket, otherwise all type arguments duplicable *)
@@ -131,7 +149,7 @@ Fixpoint duplicable (t : ty) : bool :=
   match t with
   | TTicket _ => false
   | TPair a b => duplicable a && duplicable b
-  | TOption a | TList a => duplicable a
+  | TOption a | TList a | TMap _ a => duplicable a
   | _ => true
   end.
 
@@ -205,6 +223,26 @@ Fixpoint dug (n : nat) (x : val) (s : list val) : option (list val) :=
   | S k, y :: r => match dug k x r with Some r' => Some (y :: r') | None => None end
   | S _, [] => None
   end.
+
+(* finite maps with nat keys, kept sorted by key (MapType.update / BigMapType.update without chain content) *)
+Fixpoint map_get (k : Z) (m : list (Z * val)) : option val :=
+  match m with
+  | [] => None
+  | (k', v) :: r => if k =? k' then Some v else map_get k r
+  end.
+Fixpoint map_remove (k : Z) (m : list (Z * val)) : list (Z * val) :=
+  match m with
+  | [] => []
+  | (k', v) :: r => if k =? k' then map_remove k r else (k', v) :: map_remove k r
+  end.
+Fixpoint map_insert (k : Z) (v : val) (m : list (Z * val)) : list (Z * val) :=
+  match m with
+  | [] => [(k, v)]
+  | (k', v') :: r => if k <? k' then (k, v) :: (k', v') :: r else (k', v') :: map_insert k v r
+  end.
+Definition map_put (k : Z) (v : val) (m : list (Z * val)) : list (Z * val) := map_insert k v (map_remove k m).
+Definition opt_of (vt : ty) (o : option val) : val := match o with Some v => VSome v | None => VNone vt end.
+Definition is_some (o : option val) : bool := match o with Some _ => true | None => false end.
 
 (* ticket contents of the modelled domain *)
 Fixpoint content_of (v : val) : option cval :=
@@ -280,6 +318,21 @@ Fixpoint step (i : instr) (st : state) {struct i} : result state :=
           end
       | Reject => Reject
       end
+  | ITER body, VMap false _ m :: s => iter_with step body (map (fun kv => VPair (VNat (fst kv)) (snd kv)) m) (with_stk st s)
+  | EMPTY_MAP big vt, s => Ok (with_stk st (VMap big vt [] :: s))
+  (* UPDATE / GET_AND_UPDATE: key nat, new value Some v (of the declared value type) or None *)
+  | UPDATE, VNat k :: VSome v :: VMap big vt m :: s =>
+      if ty_eqb vt (type_of v) then Ok (with_stk st (VMap big vt (map_put k v m) :: s)) else Reject
+  | UPDATE, VNat k :: VNone _ :: VMap big vt m :: s => Ok (with_stk st (VMap big vt (map_remove k m) :: s))
+  | GET_AND_UPDATE, VNat k :: VSome v :: VMap big vt m :: s =>
+      if ty_eqb vt (type_of v)
+      then Ok (with_stk st (opt_of vt (map_get k m) :: VMap big vt (map_put k v m) :: s)) else Reject
+  | GET_AND_UPDATE, VNat k :: VNone _ :: VMap big vt m :: s =>
+      Ok (with_stk st (opt_of vt (map_get k m) :: VMap big vt (map_remove k m) :: s))
+  | MEM, VNat k :: VMap _ _ m :: s => Ok (with_stk st (VBool (is_some (map_get k m)) :: s))
+  (* MapType.get / BigMapType.get (after fix 797a986): "use GET_AND_UPDATE instead" unless the values are duplicable *)
+  | GET, VNat k :: VMap _ vt m :: s =>
+      if duplicable vt then Ok (with_stk st (opt_of vt (map_get k m) :: s)) else Reject
   | PUSH_NAT z, s => if z <? 0 then Reject else Ok (with_stk st (VNat z :: s))
   | PUSH_STR x, s => Ok (with_stk st (VStr x :: s))
   | SELF_IS a, s => Ok {| self := a; stk := s; minted := minted st |}
@@ -299,6 +352,7 @@ Fixpoint mass (k : key) (v : val) : Z :=
   | VPair a b => mass k a + mass k b
   | VSome x => mass k x
   | VList _ l => (fix go (l : list val) : Z := match l with [] => 0 | x :: r => mass k x + go r end) l
+  | VMap _ _ m => (fix go (m : list (Z * val)) : Z := match m with [] => 0 | (_, x) :: r => mass k x + go r end) m
   | _ => 0
   end.
 
@@ -318,6 +372,7 @@ Fixpoint tickets_pos (v : val) : bool :=
   | VPair a b => tickets_pos a && tickets_pos b
   | VSome x => tickets_pos x
   | VList _ l => (fix go (l : list val) : bool := match l with [] => true | x :: r => tickets_pos x && go r end) l
+  | VMap _ _ m => (fix go (m : list (Z * val)) : bool := match m with [] => true | (_, x) :: r => tickets_pos x && go r end) m
   | _ => true
   end.
 
